@@ -68,6 +68,28 @@ class AnnotatedTypeHint(TypeHint):
         )
 
 
+    def _is_subhint(self, other: TypeHint) -> bool:
+
+        # If that hint is *NOT* annotated and the metahint annotated by this
+        # hint is a subhint of that hint as a whole, this hint is as well. A
+        # metahint that is itself a disjunction (e.g., "Literal[1, None]",
+        # "Optional[int]") may be a subhint of a union *WITHOUT* being a
+        # subhint of any single branch of that union, which the branch-by-branch
+        # test performed by the superclass method cannot detect: e.g.,
+        #     >>> is_subhint(Literal[1, None], Optional[int])
+        #     True
+        #     >>> is_subhint(Annotated[Literal[1, None], 'meta'], Optional[int])
+        #     True
+        if (
+            not isinstance(other, AnnotatedTypeHint) and
+            self._metahint_wrapper.is_subhint(other)
+        ):
+            return True
+        # Else, defer to the branch-by-branch test.
+
+        return super()._is_subhint(other)
+
+
     def _is_subhint_branch(self, branch: TypeHint) -> bool:
 
         # If the other type is not annotated, we ignore annotations on this
